@@ -330,11 +330,105 @@ def rule_occurs(ck, facts):
             ck.bad(R, key, "occur_check answers `no occurrence` for a Type::%s on a path that never looked at its component %s (components combined with `&&` instead of `||`): a variable can be bound to a %s type that contains it in that component, and later traversals never end" % (v, names, v), f.where())
 
 
+def rule_occurs_resolved(ck, facts):
+    """a resolved type variable stands for the type it was bound to"""
+    from ..rules import cover
+    R = "C04.occurs"
+    lang = facts.crate(roles.LANG)
+    fs = [f for f in lang.fns if f.short.endswith("typing::unification::occur_check") and f.kind == "fn"]
+    if len(fs) != 1:
+        return
+    f = fs[0]
+    cov = cover.coverage(facts, f, roles.TYPE)
+    if cov is None or "Intermediate" not in cov.primary_handled() or cov.arm_target("Intermediate") is None:
+        ck.bad(R, "arm|Intermediate", "occur_check has no arm for a type variable met inside the other type", f.where())
+        return
+    region = reachable(f, cov.arm_target("Intermediate"), stop=[cov.primary.block])
+    members = [(f, set(region))]
+    seen = {f.path}
+    # closures created in the arm, and closures those create
+    frontier = [(f, set(region))]
+    while frontier:
+        g, reg = frontier.pop()
+        for b, blk in enumerate(g.bb):
+            if blk["c"] or (reg is not None and b not in reg):
+                continue
+            for st in blk["s"]:
+                if st[KIND] == "a" and st[5][0] == "agg" and st[5][1][0] == "closure":
+                    h = facts.fn(st[5][1][1])
+                    if h is not None and h.path not in seen:
+                        seen.add(h.path)
+                        members.append((h, None))
+                        frontier.append((h, None))
+    recurses = any((callee(t) or "") == f.path for g, reg in members for b, t in g.calls() if reg is None or b in reg)
+    reads_parent = any("TypeVar::parent" in repr(st) for g, reg in members for b, st in g.all_stmts() if reg is None or b in reg)
+    if recurses and reads_parent:
+        ck.ok(R, "arm|Intermediate|parent", {"follows": "TypeVar::parent", "by": "recursive occur_check"})
+    else:
+        ck.bad(R, "arm|Intermediate|parent", "occur_check compares a type variable met inside the other type by its id only and does not follow the type it is already bound to (TypeVar::parent): after `let y = x` the variable of x hides behind y's, the circular constraint `x(x)` is accepted, the type graph becomes cyclic and the final substitution recurses until the stack overflows", f.where())
+
+
 def adt_field(adt, v, i):
     for var in adt["variants"]:
         if var["n"] == v:
             return var["f"][i][0]
     return str(i)
+
+
+def rule_env_balance(ck, facts):
+    """scopes of the type checker's environment are opened and closed in the same function body, on every path"""
+    R = "C04.env-balance"
+    ck.rule(R, "in every function body (closures count separately) of the type checker that opens or closes a scope of an environment (`extend` / `to_outer` on an Environment), the calls are balanced on every path to a return: the depth never goes below its value at entry and is back to it at every return. An error path that closes a scope it has not opened removes the enclosing scope — at top level the only one — and the next binding panics in Environment::add_bind")
+    lang = facts.crate(roles.LANG)
+    n = 0
+    for f in lang.fns:
+        if "::compiler::typing" not in f.path or f.kind == "promoted" or "::test" in f.path:
+            continue
+        marks = {}
+        for b, t in f.calls():
+            c = callee(t) or ""
+            if "Environment" not in c:
+                continue
+            nm = c.split("::")[-1]
+            if nm == "extend":
+                marks[b] = 1
+            elif nm == "to_outer":
+                marks[b] = -1
+        if not marks:
+            continue
+        if any(k in f.local_ty(0) for k in ("InferContext", "Environment")) and not f.local_ty(0).startswith("&"):
+            continue  # a constructor: it opens the outermost scope of the value it returns
+        n += 1
+        # forward data flow of the set of possible depths
+        depth = {0: {0}}
+        work = [0]
+        under = None
+        while work:
+            b = work.pop()
+            for d in list(depth[b]):
+                nd = d + marks.get(b, 0)
+                if nd < 0:
+                    under = b
+                    continue
+                for sc in f.succs(b):
+                    if f.is_cleanup(sc):
+                        continue
+                    cur = depth.setdefault(sc, set())
+                    if nd not in cur and len(cur) < 6:
+                        cur.add(nd)
+                        work.append(sc)
+        open_at_return = None
+        for b, ds in depth.items():
+            if f.term(b)[KIND] == "return" and any(d + marks.get(b, 0) != 0 for d in ds):
+                open_at_return = b
+        key = "balance|%s" % f.short.split("::", 2)[-1]
+        if under is None and open_at_return is None:
+            ck.ok(R, key)
+        elif under is not None:
+            ck.bad(R, key, "%s closes a scope of the environment (to_outer) on a path on which it has not opened one in the same body: the enclosing scope is removed instead (for a definition at top level the global scope itself), and the next binding panics instead of the diagnostic being reported" % f.short, f.where(f.term(under)))
+        else:
+            ck.bad(R, key, "%s returns on some path with a scope of the environment still open (extend without to_outer): bindings of the abandoned scope stay visible to whatever is checked next" % f.short, f.where())
+    ck.floor(R, "scope_managing_bodies", n, 3)
 
 
 def rule_silent_error_nodes(ck, facts):
@@ -477,6 +571,8 @@ def run(ck, facts, tier):
     belief.run(ck, R, facts, cg, roots, "front-end")
     rule_errors_as_values(ck, facts, cg)
     rule_occurs(ck, facts)
+    rule_occurs_resolved(ck, facts)
+    rule_env_balance(ck, facts)
     rule_silent_error_nodes(ck, facts)
     rule_assignment_protocol(ck, facts)
     chainwalk.run(ck, facts, "C04.chain-walk", ["mimium_lang"])
